@@ -705,6 +705,18 @@ class Harness:
         budgets = {k: case["budgets"].get(k) for k in BKEYS}
         cfg = self.config(budgets, case.get("wall"))
         state = build_state(case["world"])
+        if case.get("warm"):
+            # an earlier slice of the same process ran the same text on the same state WITHOUT budgets and left its
+            # results in the process-global stage caches: the budgets of THIS slice must bind all the same
+            cfg0 = self.config({k: None for k in BKEYS}, None)
+            ctx0 = types.SimpleNamespace(turn_id=0, agent_id="A", now=NOW_ISO, now_ms=NOW_MS, cfg=cfg0, config=cfg0, enc=_Enc())
+            self.rec = _Rec((0, 0, 0, 0, 0))
+            try:
+                orch.run_turn(ctx0, state, case["text"])
+            finally:
+                self.rec = None
+            self._clean()
+            self.clock_ms = 1000
         ctx = types.SimpleNamespace(turn_id=1, agent_id="A", now=NOW_ISO, now_ms=NOW_MS, cfg=cfg, config=cfg, enc=_Enc())
         self.rec = rec = _Rec(tuple(int(x) for x in case["script"]))
         try:
@@ -731,7 +743,7 @@ def eval_turn(case, rec, logs, state):
     # ---------- clamps
     m1 = getattr(rec.t1, "metrics", {}) or {}
     pops, iters = int(m1.get("pops", 0)), int(m1.get("iters", 0))
-    if pops > 0 and rec.heappops == 0:
+    if pops > 0 and rec.heappops == 0 and not case.get("warm"):   # (a warm-cache hit legitimately performs no pops)
         raise HarnessError("heappop seam in t1 no longer observes pops (metrics say %d)" % pops)
     bp, bi, bk, bo = budgets["t1_pops"], budgets["t1_iters"], budgets["t2_k"], budgets["t3_ops"]
     if bp is not None:
@@ -978,6 +990,20 @@ def _turn_worker(chunk, st: Stats, scratch_root, scripts, texts, worlds):
                             minimised.add(sig)
                             mc, mw = minimise_turn(h, case, sig, what)
                             st.violation(sig, mw, mc)
+                    # warm-process leg: same turn after an unbudgeted slice populated the stage caches
+                    wcase = {"kind": "turn", "world": world, "text": text, "budgets": budgets, "wall": wall,
+                             "script": [0, 0, 0, 0, 0], "warm": True}
+                    viols, outcome, nontrivial = check_turn(h, wcase)
+                    st.add("transitions")
+                    st.add("validated")
+                    st.add("turns_warm")
+                    st.distinct("outcomes", ("warm",) + tuple(outcome))
+                    cold = {sg for sg, _w in check_turn(h, dict(wcase, warm=False))[0]}
+                    for sig, what in _dedupe(viols):
+                        # only the clamp clauses are meaningful here (the warm-up slice legitimately applied and logged),
+                        # and only where the cold execution of the same turn does not already report the same clause
+                        if sig.startswith("clamp:") and sig not in cold:
+                            st.violation(sig + ":warm-cache", what + " [after an unbudgeted slice warmed the stage caches]", wcase)
     finally:
         h.uninstall()
         shutil.rmtree(scratch, ignore_errors=True)
